@@ -5,6 +5,7 @@ relies on; the rewrite itself is compared on the real code by the `dist` oracle)
 -/
 import PromqlVerif.Sem
 import PromqlVerif.Gen.Facts
+import PromqlVerif.Proofs.Pushdown
 namespace PromqlVerif.C10
 open PromqlVerif Val
 
@@ -49,6 +50,51 @@ theorem count_as_sum (p : V) (a b : List V) (ha : a ≠ []) (hb : b ≠ [])
       congr 1
       push_cast
       omega
+
+/-- **`max` and `min` are pushed down exactly**: for any number of non-empty partitions of a
+group - members in any order within and across them, NaNs and signed zeros included - the
+maximum (minimum) of the partitions' maxima (minima) is the maximum (minimum) of the group: the
+same value, not just an equal one, because the replacement step of the reference reduction
+(`if m < v || isNaN m then v else m`) is associative under the order laws of IEEE comparison
+(`LtLaws` on non-NaN values, comparisons with NaN false). -/
+theorem max_pushdown (L : LtLaws (fun v : V => isNaN v = false)) (hn : NanLaw V) (p : V)
+    (p0 : List V) (ps : List (List V)) (h0 : p0 ≠ []) (hne : ∀ q ∈ ps, q ≠ []) :
+    aggReduce "max" p (p0 ++ ps.flatten)
+      = aggReduce "max" p (aggReduce "max" p p0 :: ps.map (aggReduce "max" p)) := by
+  simp only [aggReduce_max_eq]
+  exact red1_flatten (extStep true) nan (extStep_assoc L hn true) p0 ps h0 hne
+
+theorem min_pushdown (L : LtLaws (fun v : V => isNaN v = false)) (hn : NanLaw V) (p : V)
+    (p0 : List V) (ps : List (List V)) (h0 : p0 ≠ []) (hne : ∀ q ∈ ps, q ≠ []) :
+    aggReduce "min" p (p0 ++ ps.flatten)
+      = aggReduce "min" p (aggReduce "min" p p0 :: ps.map (aggReduce "min" p)) := by
+  simp only [aggReduce_min_eq]
+  exact red1_flatten (extStep false) nan (extStep_assoc L hn false) p0 ps h0 hne
+
+/-- `sum` is pushed down exactly where addition is associative (exact arithmetic); for IEEE
+doubles the partition sums round differently from the central sum - the `dist` oracle compares
+those with a tolerance -/
+theorem sum_pushdown (hassoc : ∀ a b c : V, add (add a b) c = add a (add b c)) (p : V)
+    (p0 : List V) (ps : List (List V)) (h0 : p0 ≠ []) (hne : ∀ q ∈ ps, q ≠ []) :
+    aggReduce "sum" p (p0 ++ ps.flatten)
+      = aggReduce "sum" p (aggReduce "sum" p p0 :: ps.map (aggReduce "sum" p)) := by
+  simp only [aggReduce_sum_eq]
+  exact red1_flatten add nan hassoc p0 ps h0 hne
+
+/-- the laws hold for exact arithmetic -/
+example : LtLaws (fun v : Int => isNaN v = false) :=
+  ⟨fun a b _ _ h => by
+      have h' : a < b := by simpa [lt] using h
+      show decide (b < a) = false
+      exact decide_eq_false (by omega),
+   fun a b c _ _ _ h1 h2 => by
+      have h1' : ¬ a < b := by simpa [lt] using h1
+      have h2' : ¬ b < c := by simpa [lt] using h2
+      show decide (a < c) = false
+      exact decide_eq_false (by omega)⟩
+example : NanLaw Int := fun a _ h => by cases h
+example : aggReduce "max" (0 : Int) ([3, 1] ++ [[7], [2, 5]].flatten)
+    = aggReduce "max" 0 (aggReduce "max" 0 [3, 1] :: [[7], [2, 5]].map (aggReduce "max" 0)) := by decide
 
 /-- the aggregations the source pushes down (regenerated): `count` among them is rewritten to
 a central `sum` -/
